@@ -71,6 +71,21 @@ class VLoop(asyncio.BaseEventLoop):
         return [h for h in self._scheduled if not h._cancelled]
 
 
+def link_error(kind, default):
+    """The OSError a dying TCP link produces: resets and refusals (ConnectionError subclasses), a
+    retransmission / keep-alive timeout (TimeoutError) or an unreachable host / network (plain OSError)."""
+    import errno
+    if kind == "timeout":
+        return TimeoutError(errno.ETIMEDOUT, "Connection timed out")
+    if kind == "unreach":
+        return OSError(errno.EHOSTUNREACH, "No route to host")
+    if kind == "netdown":
+        return OSError(errno.ENETDOWN, "Network is down")
+    if kind == "pipe":
+        return BrokenPipeError(errno.EPIPE, "Broken pipe")
+    return default
+
+
 class FakeTransport(asyncio.Transport):
     """TCP transport double following _SelectorSocketTransport's observable behaviour."""
 
@@ -114,17 +129,29 @@ class FakeTransport(asyncio.Transport):
             self.fault_in -= 1
             if self.fault_in == 0:
                 self.net.ev("write_dropped", c=self.c, b=list(data), why="fault")
-                self._fatal(ConnectionResetError("injected write fault"), "write_fault")
+                self._fatal(link_error(getattr(self, "fault_exc", None), ConnectionResetError("injected write fault")), "write_fault")
                 return
         self.net.ev("write", c=self.c, b=list(data))
+        # the send buffer fills up with this write (the peer stopped reading): asyncio transports call
+        # pause_writing() from within write()
+        if getattr(self, "pause_in", 0):
+            self.pause_in -= 1
+            if self.pause_in == 0:
+                self.pause()
 
     def _fatal(self, exc, why):
         if self.lost:
             return
         self.lost = True
         self._closing = True
+        self._unstall()
         self.net.ev("lost", c=self.c, why=why)
         self.loop.call_soon(self._call_lost, exc)
+
+    def _unstall(self):
+        if getattr(self, "paused", False):   # the connection ends: nothing is stalled any more
+            self.paused = False
+            self.net.ev("resumed", c=self.c, why="ended")
 
     def _call_lost(self, exc):
         self.lost_done = True
@@ -136,6 +163,7 @@ class FakeTransport(asyncio.Transport):
         self._closing = True
         self.lost = True
         self.client_closed = True
+        self._unstall()
         self.net.ev("cclose", c=self.c)
         self.loop.call_soon(self._call_lost, None)
 
@@ -156,18 +184,20 @@ class FakeTransport(asyncio.Transport):
         else:
             self.close()
 
-    def peer_reset(self):
-        self._fatal(ConnectionResetError("connection reset by peer"), "peer_reset")
+    def peer_reset(self, exc=None):
+        self._fatal(link_error(exc, ConnectionResetError("connection reset by peer")), "peer_reset")
 
     # the peer stops reading (half-open link, full send buffer): writes are still taken, drain() blocks
     def pause(self):
         if not self.lost and not getattr(self, "paused", False):
             self.paused = True
+            self.net.ev("paused", c=self.c)
             self.protocol.pause_writing()
 
     def resume(self):
         if not self.lost and getattr(self, "paused", False):
             self.paused = False
+            self.net.ev("resumed", c=self.c)
             self.protocol.resume_writing()
 
 
@@ -257,7 +287,7 @@ class SimNet:
     def pending(self):
         return [c for c, a in enumerate(self.attempts) if a["state"] == "pending"]
 
-    def resolve_c(self, c, how):
+    def resolve_c(self, c, how, exc=None, pause_in=0):
         a = self.attempts[c]
         if a["state"] != "pending":
             return False
@@ -268,6 +298,7 @@ class SimNet:
             return True
         if how == "ok":
             tr = FakeTransport(self, c)
+            tr.pause_in = pause_in
             reader = asyncio.StreamReader(loop=self.loop)
             proto = asyncio.StreamReaderProtocol(reader, loop=self.loop)
             tr.set_protocol(proto)
@@ -281,7 +312,7 @@ class SimNet:
         else:
             a["state"] = "refused"
             self.ev("conn_refused", c=c)
-            fut.set_exception(ConnectionRefusedError("refused"))
+            fut.set_exception(link_error(exc, ConnectionRefusedError("refused")))
         return True
 
     def transport(self, c):
